@@ -62,28 +62,39 @@ def _connect(ctx, R, T, cls):
     # endpoint direction
     for attr, want_dir in (("_read_endpoint", True), ("_write_endpoint", False)):
         asg = [n for n in g.live_nodes() if n.kind == "stmt" and isinstance(n.ast, ast.Assign) and any(varkey(t) == selfn + "." + attr for t in n.ast.targets)]
-        ok = len(asg) == 1 and isinstance(asg[0].ast.value, ast.Name)
-        why = "expected one assignment of %s from a local" % attr
+        # where the values stored come from: through local copies, ignoring the `None` initialisation
+        sources = []          # (node where the value is computed, expression)
+        why = "expected %s to be assigned (possibly through a local) from an endpoint address" % attr
+        ok = bool(asg)
+
+        def trace(node, e, chain, depth=0):
+            e = unawait(e)
+            if isinstance(e, ast.Constant) and e.value is None:
+                return True
+            if isinstance(e, ast.Name) and depth < 3:
+                ds = list(df.reaching(node, e.id))
+                return bool(ds) and all(d.kind == "assign" and not d.path and d.value is not None and trace(d.node, d.value, chain + [node], depth + 1) for d in ds)
+            sources.append((node, e, chain + [node]))
+            return True
+        for a in asg:
+            ok = ok and len(a.ast.targets) == 1 and trace(a, a.ast.value, [])
+        ok = ok and len(sources) == 1
         if ok:
-            var = asg[0].ast.value.id
-            ds = [d for d in df.reaching(asg[0], var)]
-            real = [d for d in ds if not (d.kind == "assign" and isinstance(d.value, ast.Constant) and d.value.value is None)]
-            ok = len(real) == 1 and real[0].kind == "assign"
-            if ok:
-                dn = real[0].node
-                addr = T.term(f, dn, real[0].value)
-                ok = addr[0] == "call" and addr[1] == ".getAddress"
-                # governed by address & ENDPOINT_DIR_MASK
-                pol = None
-                for fa in df.facts(dn):
+            dn, e, chain = sources[0]
+            addr = T.term(f, dn, e)
+            ok = addr[0] == "call" and addr[1] == ".getAddress"
+            # governed by address & ENDPOINT_DIR_MASK: at the point where the address is routed to this attribute
+            pol = None
+            for cn in chain:
+                for fa in df.facts(cn):
                     if fa[0][0] == "truthy" and "ENDPOINT_DIR_MASK" in fa[0][1] and "BitAnd" in fa[0][1]:
                         from .c06 import eval_dump
-                        e = eval_dump(fa[0][1])
-                        tt = T.term(f, dn, e)
+                        e2 = eval_dump(fa[0][1])
+                        tt = T.term(f, cn, e2)
                         if tt[0] == "op" and tt[1] == "&" and addr in tt[2:]:
-                            pol = fa[1]
-                ok = ok and pol is want_dir
-                why = "%s is assigned under direction-bit %s (IN = device-to-host has the bit set)" % (attr, pol)
+                            pol = fa[1] if pol in (None, fa[1]) else "both"
+            ok = ok and pol is want_dir
+            why = "%s is assigned under direction-bit %s (IN = device-to-host has the bit set)" % (attr, pol)
         R.check(ok, "ENDPOINT", q + "|" + attr, "%s = the endpoint whose address %s the IN direction bit" % (attr, "has" if want_dir else "lacks"),
                 "%s is not the endpoint with the direction bit %s: %s" % (attr, "set" if want_dir else "clear", why), f.loc())
 
@@ -115,7 +126,14 @@ def _io(ctx, R, T, cls, meth, libcall, epattr, exc):
         ok = _is_ms(tt, ("p", to), ("attr", ("p", selfn), "_default_transport_timeout_s"))
     R.check(ok, "USB-io", q + "|timeout", "timeout passed in milliseconds via _timeout_ms(transport_timeout_s)", "libusb's timeout is %s; expected the transport timeout converted to ms" % (show(tt) if tt else "missing (libusb default 0 = wait forever)"), f.loc(n.ast))
     # None-guard dominates
-    hk = key(ast.Attribute(value=ast.Name(id=selfn, ctx=ast.Load()), attr="_transport", ctx=ast.Load()))
+    hattr = ast.Attribute(value=ast.Name(id=selfn, ctx=ast.Load()), attr="_transport", ctx=ast.Load())
+    hk = key(hattr)
+    recv = unawait(c.func.value) if isinstance(c.func, ast.Attribute) else None
+    if isinstance(recv, ast.Name):
+        # a local snapshot of the handle (`handle = self._transport`): the guard must then be on that snapshot
+        d = df.unique_def(n, recv.id)
+        if d is not None and d.kind == "assign" and not d.path and d.value is not None and key(unawait(d.value)) == hk:
+            hk = key(recv)
     nk = key(ast.Constant(value=None))
     guarded = any(fa[0] == ("is",) + tuple(sorted([hk, nk])) and fa[1] is False for fa in df.facts(n)) or any(fa[0] == ("truthy", hk) and fa[1] is True for fa in df.facts(n))
     R.check(guarded, "USB-io", q + "|closed-guard", "use after close is caught by the `is None` guard", "%s dereferences the handle without the `self._transport is None` guard: use after close crashes with AttributeError" % meth, f.loc(n.ast))
